@@ -177,9 +177,9 @@ theorem foldG_sum_typed (N : Num D) (t : Ty) (ht : t.isNum = true) : ∀ (ws : L
           rwa [join_idem] at this
       exact foldG_sum_typed N t ht ws a' v (fun u hu => hws u (by simp [hu])) (Or.inr ha') (Or.inr ha') h
 
-theorem initVal_int (N : Num D) : initVal N "int" = .int 0 := by simp [initVal, castTo]
+theorem initVal_int (N : Num D) : initVal N "int" = .int 0 := by simp [initVal, initValOf, litOf, castTo]
 theorem initVal_fl (N : Num D) (t : Ty) (h : t.isFloating = true) : initVal N t.cpp = .dbl (N.ofInt 0) := by
-  cases t <;> simp [Ty.isFloating] at h <;> simp [initVal, castTo, Ty.cpp, asD]
+  cases t <;> simp [Ty.isFloating] at h <;> simp [initVal, initValOf, litOf, castTo, Ty.cpp, asD]
 
 /-- the emitted accumulator starts from `0` converted to its declared type; Python's sum starts
 from the integer 0: the folds agree for integer sums and for non-empty floating sums -/
@@ -270,7 +270,9 @@ theorem count_correct (C : Ctx D) (QC : QCtx D) (hN : QC.N = C.N) (hev : QC.ev =
       have hnext := compChain_next B nm c (n + 1) K
       have hacc : s.env (nm n) = some (.val (.int 0)) := by
         have := hdone (.decl "int" (nm n) (some (.int 0))) (by simp [compEE])
-        simpa [DeclOK, initVal_int] using this
+        have h0 := initVal_int C.N
+        simp only [initVal] at h0
+        simpa [DeclOK, h0] using this
       have hx : (s.env (nm (n + 1))).isSome = true := by
         have := hdone (.decl (B.handleTy ((B.collType c.coll).getD "?")) (nm (n + 1)) none) (by simp [compEE, compChain])
         simpa [DeclOK] using this
@@ -334,7 +336,7 @@ theorem sum_correct (C : Ctx D) (QC : QCtx D) (hN : QC.N = C.N) (hev : QC.ev = C
       have hty : (Ty.join .int ((chainTy none c.steps).getD .double)) = Ty.join .int t := by rw [hct']; rfl
       have hacc : s.env (nm n) = some (.val (initVal C.N (Ty.join .int t).cpp)) := by
         have := hdone (.decl (Ty.join .int ((chainTy none c.steps).getD .double)).cpp (nm n) (some (.int 0))) (by simp [compEE])
-        simpa [DeclOK, hty] using this
+        simpa [DeclOK, hty, initVal] using this
       have hx : (s.env (nm (n + 1))).isSome = true := by
         have := hdone (.decl (B.handleTy ((B.collType c.coll).getD "?")) (nm (n + 1)) none) (by simp [compEE, compChain])
         simpa [DeclOK] using this
